@@ -326,6 +326,13 @@ def _scale_graph(spec):
 def extra_scenarios(tier, base):
     """one outage / one transient burst at every query index of sampled runs; scale: a cache of > 100 000 triples"""
     out = []
+    # a neighbourhood of more than 1000 rows whose query first meets a transient error (retried requests must ask the same)
+    for kind in ("internal", "http503"):
+        out.append(("bigrows-%s" % kind, {
+            "config": "transient", "scale": {"instances": 3, "values": 1200}, "graph": [],
+            "target": {"target_classes": [gen.EX + "A"]}, "options": {"instances_report_mode": "mixed"},
+            "ns": dict(gen.BASE_NS), "row_seed": 11, "cache_primary": kind == "internal",
+            "faults": [{"where": "first_po", "offset": 0, "burst": 2, "kind": kind}]}))
     for (ni, nv) in ([(40, 60)] if tier == "quick" else [(40, 60), (120, 300), (300, 420)]):
         out.append(("scale-%dx%d" % (ni, nv), {
             "config": "fault_free", "scale": {"instances": ni, "values": nv}, "graph": [],
